@@ -2,7 +2,7 @@
 from collections import Counter
 
 from .. import hooks
-from ..gen import big_n, canon, exact, maybe_zone, mk_event, rand_grid, rand_intervals, rand_nonoverlapping
+from ..gen import id_mode, pick_id, big_n, canon, exact, maybe_zone, mk_event, rand_grid, rand_intervals, rand_nonoverlapping
 from ..model import allen, closed_union, measure
 from . import _tx
 from ._tx import exc_viol, is_event_list, iv, snap, tmod, unmodified
@@ -134,12 +134,14 @@ _DATA = [{}, {"label": "a"}, {"label": "b"}, {"app": "x", "n": [1, {"k": None}]}
 
 def _specs(rng, ivs, base, unit, idbase, zone=None):
     out = []
+    mode = id_mode(rng)
     for i, (s, e) in enumerate(ivs):
         sp = dict(ts=base + s * unit, dur=(e - s) * unit, data=rng.choice(_DATA))
         if zone and rng.random() < 0.7:
             sp["zone"] = zone
-        if rng.random() < 0.7:
-            sp["id"] = idbase + i
+        eid = pick_id(rng, mode, i, idbase)
+        if eid is not None:
+            sp["id"] = eid
         out.append(sp)
     return out
 
